@@ -323,7 +323,7 @@ static carquet_reader_t* open_reader(char mode, int verify, carquet_error_t* err
     return carquet_reader_open(g_tmp, &ro, err);
 }
 
-typedef struct { int type; int tlen; int max_def; size_t vsize; } colinfo_t;
+typedef struct { int type; int tlen; int max_def; int max_rep; size_t vsize; } colinfo_t;
 
 static int col_info(const carquet_reader_t* rd, int col, colinfo_t* ci) {
     const carquet_schema_t* sc = carquet_reader_schema(rd);
@@ -336,7 +336,9 @@ static int col_info(const carquet_reader_t* rd, int col, colinfo_t* ci) {
         if (leaf == col) {
             ci->type = (int)carquet_schema_node_physical_type(nd);
             ci->tlen = carquet_schema_node_type_length(nd);
-            ci->max_def = carquet_schema_node_repetition(nd) == CARQUET_REPETITION_OPTIONAL ? 1 : 0;
+            /* accumulated levels of the leaf (a REQUIRED leaf inside an OPTIONAL / REPEATED group has levels too) */
+            ci->max_def = (int)carquet_schema_node_max_def_level(nd);
+            ci->max_rep = (int)carquet_schema_node_max_rep_level(nd);
             ci->vsize = ci->type == CARQUET_PHYSICAL_BYTE_ARRAY ? sizeof(carquet_byte_array_t) : fixed_size(ci->type, ci->tlen);
             return 0;
         }
@@ -381,8 +383,22 @@ static void run_col(char mode, int verify, int rg, int col, char* ops) {
             if (nb <= ((size_t)1 << 28)) memset(vals, 0xA5, nb ? nb : 1);
             int16_t* defs = with_def ? malloc(sizeof(int16_t) * (size_t)(k > 0 ? k : 1)) : NULL;
             if (defs) for (long long i = 0; i < (k > 0 ? k : 1); i++) defs[i] = 0x5A5A;
-            int64_t ret = carquet_column_read_batch(cr, vals, k, defs, NULL);
+            int nested = (ci.max_def > 1 || ci.max_rep > 0);
+            int16_t* reps = (with_def && ci.max_rep > 0) ? malloc(sizeof(int16_t) * (size_t)(k > 0 ? k : 1)) : NULL;
+            if (reps) for (long long i = 0; i < (k > 0 ? k : 1); i++) reps[i] = 0x5A5A;
+            int64_t ret = carquet_column_read_batch(cr, vals, k, defs, reps);
             printf(" %c%lld", op, (long long)ret);
+            if (ret > 0 && ret <= k && with_def && nested) {
+                /* nested column: definition levels / repetition levels / packed values (level == max_def has one) */
+                putchar(':');
+                int64_t dense = 0;
+                for (int64_t i = 0; i < ret; i++) { if (i) putchar('.'); printf("%d", (int)defs[i]); if (defs[i] == ci.max_def) dense++; }
+                putchar('/');
+                for (int64_t i = 0; i < ret; i++) { if (i) putchar('.'); printf("%d", reps ? (int)reps[i] : 0); }
+                putchar('/');
+                if (dense == 0) putchar('-');
+                for (int64_t i = 0; i < dense; i++) { if (i) putchar('.'); put_value(&ci, vals + (size_t)i * ci.vsize); }
+            } else
             if (ret > 0 && ret <= k && (with_def || ci.max_def == 0)) {
                 putchar(':');
                 int64_t dense = 0;
@@ -395,6 +411,7 @@ static void run_col(char mode, int verify, int rg, int col, char* ops) {
                     dense++;
                 }
             }
+            free(reps);
             free(vals); free(defs);
         } else if (op == 's') {
             int64_t ret = carquet_column_skip(cr, k);
